@@ -65,7 +65,7 @@ def run(tier, seed, replay=None):
     res = Result("C16", tier, seed, RULE)
     rng = rng_for(seed, "C16")
     rt = probe.runtime_probe()
-    n = 1500 if tier == "quick" else 40000
+    n = 1500 if tier == "quick" else 150000
     reqs, plans = [], []
     for i in range(n):
         si = rng.randrange(len(SETS))
